@@ -157,6 +157,17 @@ func checkBal(c *core.Ctx, srv *run.Server, bc balCase) {
 			c.Violation(sigCmd+"|fails-on-valid-input", fmt.Sprintf("exit %d err %q %s", res.Exit, res.Err, clip(res.Panic, 300)), doc)
 			continue
 		}
+		if c.HR != "" && (len(bc.files["log.yaml"])+len(args))%9 == 0 {
+			// the same report with a terminal as standard output (a pseudo-terminal through script(1))
+			if pres, ok := run.ExecPty(c.HR, args, run.ExecOpts{Dir: srv.Dir}); ok {
+				c.Eval(1)
+				c.Count("runs_with_a_terminal_as_stdout", 1)
+				if pres.Exit != res.Exit || pres.Out != res.Out {
+					c.Violation(sigCmd+"|terminal-changes-the-report", fmt.Sprintf("with a terminal as standard output: exit %d and %d bytes; through a pipe: exit %d and %d bytes", pres.Exit, len(pres.Out), res.Exit, len(res.Out)),
+						caseDoc{Files: bc.files, Args: args, Note: bc.label + "; stdout is a pseudo-terminal (script -qec)", Expected: resDoc(res), Observed: resDoc(pres)})
+				}
+			}
+		}
 		b, err := obs.ParseBal(res.Out)
 		if err != nil {
 			c.Violation(sigCmd+"|unparsable-output", err.Error(), doc)
@@ -619,6 +630,13 @@ func c03World(r *rand.Rand, exact bool) *World {
 	w := &World{Exact: exact, Layout: "2006/01/02"}
 	w.Recipes, w.Basics, w.Unknown = names[:nrec], names[nrec:nrec+nbas], names[nrec+nbas:]
 	w.Book = gen.RandomBook(r, gen.BookOpts{Recipes: nrec, Basics: nbas, MaxDepth: 1 + r.Intn(3), Exact: exact, RecipeNames: w.Recipes, BasicNames: w.Basics, Wide: wide})
+	if r.Intn(4) == 0 && len(w.Book) >= 1 {
+		// a heading whose name begins with the comment character (in quotes): a recipe nothing can refer to; its
+		// elements are its own and nobody else's
+		hash := gen.Recipe{Name: "#1 combo", Ents: []gen.Ent{{Name: w.Basics[0], Val: gen.N("180")}, {Name: w.Basics[len(w.Basics)-1], Val: gen.N("75")}}}
+		at := 1 + r.Intn(len(w.Book))
+		w.Book = append(w.Book[:at:at], append(gen.Book{hash}, w.Book[at:]...)...)
+	}
 	w.Log = gen.RandomLog(r, gen.LogOpts{Days: 1 + r.Intn(4), Foods: names, Exact: exact, EmptyDays: true})
 	w.Res = model.Resolve(w.Book)
 	w.Abs = model.AbsPaths(w.Book)
